@@ -51,5 +51,5 @@ TInit == l = 1
 TNext == /\ l <= Len(Trace)
          /\ \A i \in l..(IF l + Batch - 1 < Len(Trace) THEN l + Batch - 1 ELSE Len(Trace)) : Judge(i)
          /\ l' = l + Batch
-Done == PrintT("DONE " \o ToString(Len(Trace)) \o " " \o ToString(Len(Trace)))
+Done == TLCGet("stats").diameter >= 0 /\ PrintT("DONE " \o ToString(Len(Trace)) \o " " \o ToString(Len(Trace)))
 =============================================================================
